@@ -100,18 +100,24 @@ Definition doc_step (t : tree) (names : list bytes) (sl : sline) : dres :=
     | _ :: fn :: _ =>
       let ntoks := f_toks fn in
       if d_wild d then
-        match doc_glob t ntoks with
-        | DGUnk => DUnk
-        | DGOk ms =>
-          if d_adding d then
+        if d_adding d then
+          (* the matching entries of the build root *)
+          match doc_glob t ntoks with
+          | DGUnk => DUnk
+          | DGOk ms =>
             match x_source (d_x d), ms with
             | _ :: _, _ => DUnk
             | [], [] => DUnk
             | [], _ => DOk (fold_left (fun l n => nadd n l)
                                       (if d_type d =? 1 then expand t ms else ms) names)
             end
-          else DOk (fold_left (fun l n => ndel n l) ms names)
-        end
+          end
+        else
+          (* omit: the matching entries are those of the list; the name is read as written (the
+             directory part literally, the asterisks of the last element standing for any run of
+             non-slash bytes) *)
+          if existsb odd_tok ntoks then DUnk
+          else DOk (filter (fun n => negb (pmatch (map tok_pat ntoks) n)) names)
       else
         let n := fmeant ntoks in
         if d_adding d then
